@@ -243,8 +243,14 @@ def run_case(case):
     try:
         gsi.set_info_params(info, dataset_type=case["type"], encoding=case["encoding"])
         full0 = copy.deepcopy(info["scales"][0])
+        # the target is an integer: a Python int or a NumPy integer scalar (an element of
+        # 2 ** np.arange(...)) - the generated info is the same and stays JSON-serialisable
+        T_arg = T
+        if case["size"][0] % 4 == 1:
+            T_arg = np.int64(T)
+            obs["numpy_integer_target"] = 1
         out = dyadic_pyramid.fill_scales_for_dyadic_pyramid(
-            info, target_chunk_size=T, max_scales=ms)
+            info, target_chunk_size=T_arg, max_scales=ms)
     except Exception as exc:  # noqa: BLE001
         # the recorded mechanism is identified by its predicate on the input, not by the
         # class of the exception the generator happens to raise
@@ -454,6 +460,7 @@ def gates(obs, tier):
         "fractional_resolutions": obs.get("fractional_resolution", 0) > 100,
         "encoder_checks": obs.get("encoder_checks", 0) > 1000,
         "inherited_encodings": obs.get("inherited_encoding", 0) > 50,
+        "numpy_integer_targets": obs.get("numpy_integer_target", 0) > 100,
         "prefilled_full_resolution_scales": obs.get("prefilled_key_or_chunk_sizes", 0) > 100,
         "regenerated_from_own_output": obs.get("regenerated_from_own_output", 0) > 100,
         "sizes_next_to_powers_of_two": obs.get("near_power_of_two_sizes", 0) > 50,
